@@ -2,6 +2,7 @@
 From Coq Require Import List ZArith Bool.
 From JSL Require Import Base.Res Base.ListX SM.Types SM.Util SM.Handler SM.Step SM.Inv
   SMP.Post SMP.PostApply SMP.Offers SMP.Clock SM.Middleware SM.Example SMP.StepInv SMP.Clock SMP.Outages.
+From JSL Require Import SM.Events SMP.SampledOk.
 Import ListNotations.
 
 (* machine: blocked until now + longest active outage; the job stays inside (internal buffer untouched) *)
@@ -117,3 +118,15 @@ Print Assumptions C10_outage_records_micro_states.
 Example C10_hypotheses_satisfiable :
   inst_nonneg_b ex_inst = true /\ clock_b ex_state = true /\ outages_b ex_state && outage_nonneg_b ex_state = true.
 Proof. vm_compute. repeat split. Qed.
+
+(* the clause the monitors evaluate on every outage-sampling transition of the implementation (SM/Events.v sampled_ok: records
+   untouched or started now with end >= start; for a deterministic frequency started exactly when due, for a deterministic
+   duration lasting exactly that) is TRUE of what the model's sampler returns, for every configuration, state of the samplers
+   and oracle - so it raises no alarm on behaviour that agrees with the model, and an alarm names a transition on which the
+   implementation left a due outage out, started one that was not due, or blocked for another length *)
+Theorem C10_sampling_clause_holds_of_the_model :
+  forall sigma now cs sto os outs sto',
+    sto_nonneg sto -> forallb (fun o => tc_nonneg (og_dur o)) cs = true ->
+    new_outage_states sigma now sto cs os = Ok (outs, sto') -> sampled_ok now cs os outs = true.
+Proof. exact new_outage_states_sampled_ok. Qed.
+Print Assumptions C10_sampling_clause_holds_of_the_model.
